@@ -109,7 +109,7 @@ class Sys:
             last = None
             for i in range(d['rn']):
                 if d['rres'][i] != last:
-                    rid += 1
+                    rid += int(rng.choice([1, 1, 1, 2, 5]))      # residue numbers with gaps, inside a molecule too
                     rids.append(rid)
                     last = d['rres'][i]
                 nr += 1
